@@ -187,3 +187,34 @@ def check_history_independence(ctx, rep, RULE):
     if not n:
         rep.ob(RULE, True, None, None, loc="selfies/", construct="stores to module state after import", how="none outside the setter",
                key="table-dependent-store/no-writers")
+
+
+def emits_name(ctx, owner, call, name):
+    """True when ``call`` (a call expression in ``owner``) appends the value of local ``name`` to a list:
+    either ``X.append(name)`` itself, or a call of a helper whose receiving parameter is appended
+    unconditionally (top-level statement of the helper body)."""
+    if isinstance(call.func, ast.Attribute) and call.func.attr == "append":
+        return bool(call.args) and isinstance(call.args[0], ast.Name) and call.args[0].id == name
+    site = [s for s in ctx.cg.sites(owner) if s.node is call]
+    if not site or not site[0].callees:
+        return False
+    for g in site[0].callees:
+        recv = None
+        for i, a in enumerate(call.args):
+            if isinstance(a, ast.Name) and a.id == name and i < len(g.posparams):
+                recv = g.posparams[i]
+        for kw in call.keywords:
+            if isinstance(kw.value, ast.Name) and kw.value.id == name and kw.arg in g.params:
+                recv = kw.arg
+        if recv is None:
+            return False
+        hit = False
+        for st in g.node.body:
+            if isinstance(st, ast.Expr) and isinstance(st.value, ast.Call):
+                c = st.value
+                if isinstance(c.func, ast.Attribute) and c.func.attr == "append" and c.args \
+                        and isinstance(c.args[0], ast.Name) and c.args[0].id == recv:
+                    hit = True
+        if not hit:
+            return False
+    return True
